@@ -1,4 +1,4 @@
-SPECIFICATION HSpec
+SPECIFICATION SSpec
 CONSTANTS
   TC <- MCTC
   TW <- MCTW
